@@ -170,6 +170,14 @@ def _compact_cache(j, conv):
     cache = (compact.CompactCacheV1 if j['version'] == 1 else compact.CompactCacheV2)(d)
     for c in j['stored']:
         assert cache.store_tile(Tile(tuple(c), ImageSource(BytesIO(_tile_bytes(c)))))
+    # (history for C19: overwrites and removes leave unused space behind, so that defragmentation has something to do)
+    for c in j.get('overwritten', []):
+        assert cache.store_tile(Tile(tuple(c), ImageSource(BytesIO(_tile_bytes(c) * 2))))
+    for c in j.get('removed', []):
+        cache.remove_tile(Tile(tuple(c)))
+    if j.get('snapshot'):
+        from contracts.c05_compact import _cache_view
+        cache._pyvc_before = _cache_view(cache)
     return cache
 
 
